@@ -209,6 +209,29 @@ pub fn program(p: &Profile) -> BoxedStrategy<Vec<RCmd>> {
         .boxed()
 }
 
+/// program with deliberately colliding labels: a later command carries the same (count, heart) as an earlier one
+pub fn program_with_jumps(p: &Profile) -> BoxedStrategy<Vec<RCmd>> {
+    let pair = (any::<u16>(), any::<u16>(), 0u8..6, 0u8..6, 1usize..=3, 0usize..=4, 0usize..HEART_SET.len() - 1, 0usize..7, any::<bool>());
+    (program(p), prop::collection::vec(pair, 0..=2))
+        .prop_map(|(mut cmds, pairs)| {
+            for (a, b, k1, k2, h, d, heart, shape, swap_hd) in pairs {
+                let hc = crate::refparse::heart_char(HEART_SET[heart]);
+                let first_area = ["H", "H", "H", "?H", "H!", "H?H", "!H"][shape % 7].replace('H', &hc.to_string());
+                let second_area = ["H", "?H", "H?", "!H", "H!", "H?♡", "?H!♡"][shape].replace('H', &hc.to_string());
+                let p1 = ((a as usize) * (cmds.len() + 1)) >> 16;
+                let (h2, d2) = if swap_hd && d >= 1 { (d, h) } else { (h, d) };
+                let fix = |k: u8, dd: usize| if k == 5 && dd < 3 { 3 } else { dd };
+                cmds.insert(p1, RCmd::with_area(k1, h, fix(k1, d), parse_shape(&first_area).unwrap()));
+                let span = cmds.len() - p1;
+                let p2 = p1 + 1 + (((b as usize) * span) >> 16);
+                // keep the count equal: h2*d2 == h*d unless `fix` had to move d (then the label simply does not collide)
+                cmds.insert(p2.min(cmds.len()), RCmd::with_area(k2, h2.max(1), fix(k2, d2), parse_shape(&second_area).unwrap()));
+            }
+            cmds
+        })
+        .boxed()
+}
+
 // ---------------------------------------------------------------------------------------------
 // stdin texts
 
@@ -270,7 +293,7 @@ impl ProgCase {
 }
 
 pub fn prog_case(p: &Profile) -> BoxedStrategy<ProgCase> {
-    (program(p), stdin_text()).prop_map(|(cmds, stdin)| ProgCase { cmds, stdin }).boxed()
+    (program_with_jumps(p), stdin_text()).prop_map(|(cmds, stdin)| ProgCase { cmds, stdin }).boxed()
 }
 
 pub fn cmds_json(cmds: &[RCmd]) -> Value {
